@@ -11,7 +11,7 @@ import gen_prog
 import pipeline
 
 
-def run_bash(script, stdin=b"", timeout=10, files=None, keep=False):
+def run_bash(script, stdin=b"", timeout=10, files=None, keep=False, _second_try=False):
     """Run a script under /bin/bash in a fresh empty directory with a clean environment."""
     d = tempfile.mkdtemp(prefix="tshrun-")
     try:
@@ -23,12 +23,26 @@ def run_bash(script, stdin=b"", timeout=10, files=None, keep=False):
         sp = os.path.join(d, ".script.sh")
         with open(sp, "wb") as fh:
             fh.write(script)
+        import resource
+        ru0 = resource.getrusage(resource.RUSAGE_CHILDREN)
         try:
             p = subprocess.run(["/bin/bash", sp], cwd=d, input=stdin, stdout=subprocess.PIPE, stderr=subprocess.PIPE,
                                timeout=timeout, env={"PATH": "/usr/bin:/bin", "LC_ALL": "C", "HOME": d})
             res = dict(status=p.returncode, stdout=p.stdout, stderr=p.stderr, timeout=False)
         except subprocess.TimeoutExpired as e:
             res = dict(status=-1, stdout=e.stdout or b"", stderr=e.stderr or b"", timeout=True)
+        ru1 = resource.getrusage(resource.RUSAGE_CHILDREN)
+        cpu = (ru1.ru_utime + ru1.ru_stime) - (ru0.ru_utime + ru0.ru_stime)
+        # a script that burnt most of its budget in CPU time is busy, not starved, and on a machine that is not overloaded a script that
+        # used no CPU is blocked, not starved: no second run for those
+        if os.environ.get("VERIF_DEBUG_TIMEOUTS") and res["timeout"]:
+            with open(os.environ["VERIF_DEBUG_TIMEOUTS"], "a") as fh:
+                fh.write("timeout=%s cpu=%.1f second=%s\n" % (timeout, cpu, _second_try))
+        if res["timeout"] and not _second_try and cpu < 0.5 * timeout and os.getloadavg()[0] > 1.5 * (os.cpu_count() or 1):
+            # wall-clock budgets are for hangs of the SCRIPT: on a loaded machine a script is given a second run with six times the
+            # budget (in a fresh directory) before the run counts as a timeout
+            shutil.rmtree(d, ignore_errors=True)
+            return run_bash(script, stdin=stdin, timeout=timeout * 6, files=files, keep=keep, _second_try=True)
         if keep:
             tree = {}
             for root, _, fs in os.walk(d):
@@ -97,7 +111,9 @@ def check_cases(b, cases, stages="as"):
             failures.append((c, "behaviour", dict(want_stdout=want_out.decode("latin1"), got_stdout=r["stdout"].decode("latin1")[:2000],
                                                   want_status=c.meta["expected_status"], got_status=r["status"],
                                                   stderr=r["stderr"].decode("latin1")[:500], timeout=r["timeout"])))
-    disagreements += sem_validate(b, runnable)
+    # the semantic models are asked about the programs whose script TERMINATED under /bin/bash: a script that ran into the wall-clock
+    # budget (a known-finding program that loops, say) would make the Lean interpreters walk through their whole fuel
+    disagreements += sem_validate(b, [c for c in runnable if not c.meta["run"]["timeout"]])
     return disagreements, failures
 
 
